@@ -15,6 +15,18 @@ from mitxgraders.exceptions import StudentFacingError
 
 mp.mp.dps = 40
 
+# numpy's floating-point error state is context-local and the library configures it when it is imported (np.seterr /
+# np.seterrcall in expressions.py).  A pool worker forked from a helper thread of the parent would start with numpy's
+# defaults instead, so the state the library under test established in the importing thread is captured here, right
+# after the import above, and re-established before every case (never hard-coded: it is part of what is tested).
+_NP_ERR, _NP_ERRCALL = np.geterr(), np.geterrcall()
+
+
+def _library_numpy_state():
+    np.seterr(**_NP_ERR)
+    np.seterrcall(_NP_ERRCALL)
+
+
 RULE = ("A case is (function table F/N/M = Formula/Numerical/MatrixGrader.default_functions, function name, argument "
         "list); arguments are real floats, complex numbers or real/complex arrays, handed to "
         "evaluator('f(p0,..)', variables, table, {}) as variables (or, for arrays, also as literal '[[p0,p1],..]' of "
@@ -56,6 +68,8 @@ ASSUMPTIONS = [
     "det is computed by LU with partial pivoting: the accepted error is |det(A+E) - det(A)| for |E_ij| <= 1e-11 max|A| "
     "(bounded term by term in the Leibniz sum) plus 1e-9 |det| - a determinant is not required to be accurate relative "
     "to its own size when the entries span many orders of magnitude",
+    "the numpy floating-point error state is the one the library sets up when imported in the main thread (it is "
+    "context-local; the check re-establishes the captured state in every worker)",
     "factorial/fact are excluded (scipy absent)",
 ]
 REQUIRED = {
@@ -597,6 +611,7 @@ def scalar_features(z, rec):
 
 def judge(spec, rec):
     mp.mp.dps = 40
+    _library_numpy_state()
     table, f = spec['t'], spec['f']
     args = [dec(a) for a in spec['args']]
     literal = bool(spec.get('lit'))
@@ -686,6 +701,7 @@ def _matrix_abs_extreme(table, f, args):
 
 def judge_constant(spec, rec):
     table, name = spec['t'], spec['name']
+    _library_numpy_state()
     status, val, rw = run_library(name, {}, table)
     rec.calls()
     rec.cls('constant/' + name)
